@@ -269,7 +269,7 @@ CONFIG["C08"] = dict(
                "rests on delivery_never_blames_honest_dealer (handler by handler: a first-time, in-time vector / share / valid answer and every complaint of another participant produce no callback against the dealer) and a history invariant (what is still to be delivered has not been received: Safe, kept by frames_interp); non-vacuity example. "
                "The hypotheses are necessary: a second copy of the vector, a late share or a second answer IS flagged by the code (FlagMisbehavior on the dealer), as the runs show. "
                "Props.C08Dealer (the dealer's side of 'no second answer'): repeated_complaint_not_answered (a complaint already registered as received makes the handler broadcast nothing, for every data), answer_registers_complaint (any broadcast of the handler comes with 'not registered before, registered after'), "
-               "registered_stays, and dealer_answers_once_partial: over every history of complaint deliveries (any origins, any data, any repetitions) from every state each complainer is answered at most once, and never once registered (partial: histories of complaint deliveries only; that the other handlers and the timeouts keep the table entries is not proven).",
+               "registered_stays, dealer_answers_once_partial (handler level, every state: over every history of complaint deliveries each complainer is answered at most once) and dealer_answers_once: at the dealer's own instance, along EVERY history of deliveries (broadcast or private, any sender, any bytes) and timeouts, from every state, at most one delivery sent by k makes the instance broadcast anything - the answer - and none once the complaint of k is registered (only complaint deliveries broadcast at that instance: dealer_bcast_cases, dealer_priv_noop).",
     level_note="Lean kernel + correspondence",
     assumptions=["reliable broadcast, round-synchronous delivery, at most t Byzantine participants"],
 )
